@@ -808,7 +808,10 @@ impl Online {
                     );
                 }
                 for g in &granted {
-                    if self.view.get(&node).is_some_and(|(_, l)| l.contains(g)) {
+                    // the granter must really be a learner: the recorded view of the candidate can
+                    // lag its membership (the candidate asked this peer, so its own membership
+                    // lists it as a voter), the granter's own role cannot
+                    if self.view.get(&node).is_some_and(|(_, l)| l.contains(g)) && self.roles.get(g).is_some_and(|(r, _)| *r == LEARNER) {
                         self.find(t, "C27", "learner-vote-counted", json!({"candidate": node, "term": term, "learner": g}));
                     }
                 }
